@@ -114,6 +114,55 @@ def generate(repo, g):
             raise TieBroken('refactoring/__init__.py: inline raises something else', u(n))
     g.define('inlineRefusals', 'List String', lean_list([m for _, m in sorted(msgs)]),
              'jedi/api/refactoring/__init__.py:inline raise RefactoringError(...) in source order')
+    # extract_function: the loop of _find_inputs_and_outputs over the names of the selection.  Two shapes are
+    # accepted: the original one and the one of proposed_fixes/c06-4-extract-function-read-in-own-statement.diff
+    # (the target of an augmented assignment is looked up as a read too; lookups start at the statement).
+    fio = ext.find('_find_inputs_and_outputs')
+    body = [u(n) for n in fio.body if not (isinstance(n, ast.Expr) and isinstance(n.value, ast.Constant))]
+    frame = ['first = nodes[0].start_pos', 'last = nodes[-1].end_pos', 'inputs = []', 'outputs = []', None,
+             'return (inputs, outputs)']
+    if len(body) != len(frame) or any(w is not None and w != b for w, b in zip(frame, body)):
+        raise TieBroken('extract.py: _find_inputs_and_outputs is no longer `inputs = []; outputs = []; one loop; '
+                        'return inputs, outputs`', ' | '.join(b.split('\n')[0] for b in body))
+    head = ('for name in _find_non_global_names(nodes):\n'
+            '%s'
+            '    if name.is_definition():\n'
+            '        if name not in outputs:\n'
+            '            outputs.append(name.value)\n'
+            '%s'
+            '        name_definitions = context.goto(name, %s)\n'
+            '        if not name_definitions or _is_name_input(module_context, name_definitions, first, last):\n'
+            '            inputs.append(name.value)')
+    original = head % ('', '    elif name.value not in inputs:\n', 'name.start_pos')
+    fixed = head % ('    is_read = True\n',
+                    '        is_read = _is_augmented_assignment_target(name)\n'
+                    '    if is_read and name.value not in inputs:\n', '_get_lookup_position(name)')
+    if body[4] == original:
+        reads_aug, position = False, 'name.start_pos'
+    elif body[4] == fixed:
+        reads_aug, position = True, '_get_lookup_position(name)'
+        want = ("def _is_augmented_assignment_target(name):\n    definition = name.get_definition()\n"
+                "    if definition is None or definition.type != 'expr_stmt':\n        return False\n"
+                "    operator = definition.children[1]\n"
+                "    return operator.type == 'operator' and operator.value != '='")
+        if u(ext.find('_is_augmented_assignment_target')) != want:
+            raise TieBroken('extract.py: _is_augmented_assignment_target changed',
+                            u(ext.find('_is_augmented_assignment_target')))
+        g.fp(ext, '_is_augmented_assignment_target')
+        g.fp(ext, '_get_lookup_position')
+    else:
+        raise TieBroken('extract.py: _find_inputs_and_outputs: the loop over the names of the selection is neither '
+                        'the original one (`elif name.value not in inputs: goto; if outside: inputs.append`) nor '
+                        'the one of the proposed fix c06-4', body[4])
+    g.define('extractReadsAugTarget', 'Bool', lean_bool(reads_aug),
+             'jedi/api/refactoring/extract.py:_find_inputs_and_outputs, the target of `x += 1` is looked up as a read')
+    g.define('extractLookupPosition', 'String', lean_str(position),
+             'jedi/api/refactoring/extract.py:_find_inputs_and_outputs, second argument of context.goto')
+    g.define('extractInputGuard', 'String', lean_str('name.value not in inputs'),
+             'jedi/api/refactoring/extract.py:_find_inputs_and_outputs, the only condition under which a read is not '
+             'looked up (checked as part of the loop shape)')
+    g.fp(ext, '_is_name_input')
+    g.fp(ext, '_find_non_global_names')
     for s, d in [(ref, 'inline'), (ref, '_remove_indent_of_prefix'), (ext, 'extract_variable'),
                  (ext, '_is_expression_with_error'), (ext, '_find_nodes'), (ext, '_replace'),
                  (ext, '_expression_nodes_to_string'), (ext, '_remove_unwanted_expression_nodes'),
